@@ -508,6 +508,21 @@ pub fn gen_c09_texts(tier: &str, seed: u64) -> Vec<String> {
     ] {
         v.push(t.to_string());
     }
+    // 2d. volume of errors: many stray characters / unterminated constructs followed by relations
+    //     (an "error limit" that gives up, a recovery path that only runs after N errors); the tail
+    //     is not a palindrome at token level
+    for unit in ["@ ", "@", "é", "$ ", "} ", "( ", ") ", "a b ", "% %", "[ ", "a (", "${", "< ", "a:: "] {
+        for k in [2usize, 15, 16, 17, 31, 32, 33, 63, 64, 65, 99, 100, 101, 127, 128, 129, 255, 256, 257, 600] {
+            if !thorough && k > 260 && unit.len() > 2 {
+                continue;
+            }
+            for tail in ["", "foo (>= 1.0), bar | baz", ", a [b] <c>"] {
+                let mut t = unit.repeat(k);
+                t.push_str(tail);
+                v.push(t);
+            }
+        }
+    }
     // 3. seeded random well-formed fields, truncated at every position, plus one mutation each
     let mut rng = Rng::new(seed);
     let n = if thorough { 2000 } else { 300 };
